@@ -2,7 +2,8 @@
 (***************************************************************************)
 (* Trace validation for C08: forgery campaigns against a real router.      *)
 (* Every event is one delivered (forged or genuine) announcement:           *)
-(*  {"ev":"case","len":L,"op":OP,"depth":D,"accepted":B,"path":[..],         *)
+(*  {"ev":"case","len":L,"op":OP,"depth":D,"seen":B,"accepted":B,"path":[..], *)
+(*   seen      = the victim had already processed the genuine announcement    *)
 (*   "via":N,"nexthop":N,"unchanged":B,"genuine":B}                          *)
 (*   accepted  = a route to the origin was installed / refreshed             *)
 (*   path      = routers of the installed route between victim and origin    *)
@@ -21,8 +22,10 @@ TraceInit == l = 1 /\ Init
 
 CaseOK ==
   LET want == PropAccept(Ev.len, Ev.op, Ev.depth)
-  IN /\ Ev.accepted <=> want
-     /\ want => /\ Ev.path = Path(Ev.len, Ev.op, Ev.depth)       \* exactly the routers whose records were attached, in order
+  IN /\ Ev.accepted => want
+     /\ (want /\ ~Ev.seen) => Ev.accepted                        \* (a copy of an announcement already processed may be a no-op)
+     /\ Ev.accepted =>
+                /\ Ev.path = Path(Ev.len, Ev.op, Ev.depth)       \* exactly the routers whose records were attached, in order
                 /\ Ev.nexthop = Deliverer(Ev.len, Ev.op)          \* next hop is the peer that delivered it
                 /\ Ev.genuine
      /\ ~want => Ev.unchanged                                     \* rejected: neither table nor forwarded frames change
